@@ -37,8 +37,16 @@ package mux
 //@   requires d != nil
 //
 //@ func (d *Demuxer) parseANMF
-//@   property C05
+//@   property C05 C14
 //@   requires d != nil
+//@   modifies d, d.frames[len(d.frames):cap(d.frames)]
+//@   ensures result == nil ==> len(d.frames) == old(len(d.frames)) + 1 && len(data) >= 16
+//@   ensures result == nil ==> d.frames[len(d.frames)-1].OffsetX == 2*(int(data[0]) | int(data[1])<<8 | int(data[2])<<16) && d.frames[len(d.frames)-1].OffsetY == 2*(int(data[3]) | int(data[4])<<8 | int(data[5])<<16)
+//@   ensures result == nil ==> d.frames[len(d.frames)-1].Width == 1 + (int(data[6]) | int(data[7])<<8 | int(data[8])<<16) && d.frames[len(d.frames)-1].Height == 1 + (int(data[9]) | int(data[10])<<8 | int(data[11])<<16)
+//@   ensures result == nil ==> d.frames[len(d.frames)-1].Duration == int(data[12]) | int(data[13])<<8 | int(data[14])<<16
+//@   ensures result == nil ==> (d.frames[len(d.frames)-1].DisposeMode == DisposeBackground <==> data[15]&1 != 0) && (d.frames[len(d.frames)-1].BlendMode == BlendNone <==> data[15]&2 != 0)
+//@   ensures result == nil ==> (d.frames[len(d.frames)-1].DisposeMode == DisposeBackground || d.frames[len(d.frames)-1].DisposeMode == DisposeNone) && (d.frames[len(d.frames)-1].BlendMode == BlendNone || d.frames[len(d.frames)-1].BlendMode == BlendAlpha)
+//@   ensures result == nil ==> (d.frames[len(d.frames)-1].IsKeyframe <==> old(len(d.frames)) == 0)
 //@   loop 0: invariant 0 <= pos && pos <= len(framePayload)
 //@   loop 0: decreases len(framePayload) - pos
 //
@@ -106,7 +114,6 @@ package mux
 //@   ensures result == nil ==> le32at(old(wlen())) == id && le32at(old(wlen()) + 4) == uint32(len(data))
 //@   ensures result == nil ==> forall k int :: 0 <= k && k < len(data) ==> wlog(old(wlen()) + 8 + k) == data[k]
 //@   ensures result == nil && len(data) % 2 != 0 ==> wlog(old(wlen()) + 8 + len(data)) == 0
-//@   ensures result == nil ==> forall k int :: 0 <= k && k < old(wlen()) ==> wlog(k) == old(wlog(k))
 //
 // The ALPH prefix convention of frame payloads.
 //@ func splitAlphaAndBitstream
@@ -148,14 +155,31 @@ package mux
 //
 // One ANMF chunk: 8-byte header whose size field equals the number of payload
 // bytes actually written after it (frame header + sub-chunks), even total.
+// Reads the dimensions out of a frame payload; writes nothing.
+//@ func frameDimensions
+//@   property C14 C05
+//@   modifies nothing
+//@   ensures true
+//
+//@ pure func le24at(i int) int = int(wlog(i)) | int(wlog(i+1))<<8 | int(wlog(i+2))<<16
+//
 //@ func (m *Muxer) writeANMFChunk
 //@   property C14
 //@   requires m != nil && w != nil && len(f.data) <= 0x3fffffff
 //@   modifies nothing
-//@   abstract frameDimensions
 //@   ensures result == nil ==> le32at(old(wlen())) == FourCCANMF
-//@   ensures result == nil ==> wlen() - old(wlen()) == 8 + int(padded(le32at(old(wlen()) + 4)))
-//@   ensures result == nil ==> forall k int :: 0 <= k && k < old(wlen()) ==> wlog(k) == old(wlog(k))
+//@   ensures result == nil ==> le24at(old(wlen()) + 8) == (f.opts.OffsetX/2) & 0xffffff && le24at(old(wlen()) + 11) == (f.opts.OffsetY/2) & 0xffffff
+//@   ensures result == nil && fw > 0 && fh > 0 ==> le24at(old(wlen()) + 14) == (fw-1) & 0xffffff && le24at(old(wlen()) + 17) == (fh-1) & 0xffffff
+//@   ensures result == nil ==> le24at(old(wlen()) + 20) == f.opts.Duration & 0xffffff
+//@   ensures result == nil ==> wlog(old(wlen()) + 23) == (f.opts.DisposeMode == DisposeBackground ? 1 : 0) | (f.opts.BlendMode == BlendNone ? 2 : 0)
+//@   ensures result == nil && alphaData != nil ==> le32at(old(wlen()) + 24) == FourCCALPH && int(le32at(old(wlen()) + 28)) == len(alphaData)
+//@   ensures result == nil && alphaData != nil ==> forall k int :: 0 <= k && k < len(alphaData) ==> wlog(old(wlen()) + 32 + k) == alphaData[k]
+//@   ensures result == nil && alphaData == nil ==> int(le32at(old(wlen()) + 28)) == len(bitstream) && (le32at(old(wlen()) + 24) == FourCCVP8 || le32at(old(wlen()) + 24) == FourCCVP8L)
+//@   ensures result == nil && alphaData == nil ==> forall k int :: 0 <= k && k < len(bitstream) ==> wlog(old(wlen()) + 32 + k) == bitstream[k]
+//@   ensures result == nil && alphaData == nil ==> wlen() - old(wlen()) == 24 + 8 + len(bitstream) + (len(bitstream) & 1)
+//@   ensures result == nil && alphaData != nil ==> wlen() - old(wlen()) == 24 + 8 + len(alphaData) + (len(alphaData) & 1) + 8 + len(bitstream) + (len(bitstream) & 1)
+//@   ensures result == nil ==> int(le32at(old(wlen()) + 4)) == 16 + (alphaData != nil ? 8 + len(alphaData) + (len(alphaData) & 1) : 0) + 8 + len(bitstream) + (len(bitstream) & 1)
+//@   ensures result == nil ==> wlen() - old(wlen()) >= 32 && (wlen() - old(wlen())) % 2 == 0
 //
 //@ func (m *Muxer) assembleSimple
 //@   property C14 C02
@@ -232,3 +256,15 @@ package mux
 //@   ensures (flags & 0x20 != 0 <==> m.iccData != nil) && (flags & 0x08 != 0 <==> m.exifData != nil) && (flags & 0x04 != 0 <==> m.xmpData != nil) && (flags & 0x02 != 0 <==> animated) && flags & 0xc1 == 0
 //@   ensures result == nil ==> int(wlog(old(wlen()) + 24)) | int(wlog(old(wlen()) + 25))<<8 | int(wlog(old(wlen()) + 26))<<16 == (canvasW-1) & 0xffffff
 //@   ensures result == nil ==> int(wlog(old(wlen()) + 27)) | int(wlog(old(wlen()) + 28))<<8 | int(wlog(old(wlen()) + 29))<<16 == (canvasH-1) & 0xffffff
+//
+// ---- C14: what writeANMFChunk stores, parseANMF reads back ----
+//
+// Pure arithmetic of the two field encodings: for every even offset below
+// 2^25, every dimension in 1..2^24 and every duration below 2^24, decoding the
+// stored 24-bit value gives the value back.
+//@ lemma anmfFieldRoundTrip(off int, dim int, dur int)
+//@   property C14
+//@   requires 0 <= off && off < 1<<25 && off % 2 == 0 && 1 <= dim && dim <= 1<<24 && 0 <= dur && dur < 1<<24
+//@   ensures 2 * ((off/2) & 0xffffff) == off
+//@   ensures 1 + ((dim-1) & 0xffffff) == dim
+//@   ensures dur & 0xffffff == dur
